@@ -801,6 +801,21 @@ class C02(core.Check):
                 dist[kk] = dist.get(kk, 0) + 1
         if case.get("malformed"):
             dist["malformed-stream"] = dist.get("malformed-stream", 0) + 1
+        # a cut double-width character shows up as a space that the leaves do not contain at that place:
+        # count the cases in which the grid evaluator produced a wildcard-charset cell
+        try:
+            lv = [self.g_leaf(sp) for sp in case["leaves"]]
+            env = []
+            for t in case["defs"]:
+                v = self.g_eval(t, lv, env)
+                env.append(v)
+                if v is None:
+                    break
+                if any(c[2] == "*" for r in v["g"] for c in r):
+                    dist["cut-wide-char"] = dist.get("cut-wide-char", 0) + 1
+                    break
+        except Exception:
+            pass
         if any(sp["t"] == "text" and any(chw(ch[0]) == 2 for r in sp["rows"] for _, _, ch in r) for sp in case["leaves"]):
             dist["has-wide"] = dist.get("has-wide", 0) + 1
 
@@ -975,7 +990,31 @@ class C02(core.Check):
         one numeric argument changed, or an unrelated tree"""
         leaves, dims = [], []
         t, w, h, _ = self.gen_tree(rng, rng.choice([1, 2, 3]), leaves, dims, comp=True)
-        how = rng.choice(["same", "swap", "swap", "tweak", "other", "band"])
+        how = rng.choice(["same", "swap", "swap", "tweak", "other", "band", "moved", "moved"])
+        if how == "moved":
+            # the same canvases placed at other columns / rows: a tall leaf beside a stack of short ones
+            hh = rng.choice([2, 3])
+            parts = []
+            for k in range(rng.choice([2, 3])):
+                wk = rng.choice([1, 2, 3])
+                if rng.random() < 0.5:
+                    leaves.append(self.gen_leaf(rng, wk, hh))
+                    if leaves[-1]["t"] == "text":
+                        leaves[-1]["maxcol"] = wk
+                    parts.append([["leaf", len(leaves)], wk])
+                else:
+                    sub = []
+                    for _ in range(hh):
+                        leaves.append(self.gen_leaf(rng, wk, 1))
+                        if leaves[-1]["t"] == "text":
+                            leaves[-1]["maxcol"] = wk
+                        sub.append(["leaf", len(leaves)])
+                    parts.append([["combine", sub], wk])
+            perm = parts[1:] + parts[:1] if rng.random() < 0.7 else list(reversed(parts))
+            defs = [["join", parts], ["join", perm]]
+            if rng.random() < 0.5:
+                defs = [["combine", [defs[0], ["ref", 0]]] if False else defs[0], defs[1]]
+            return {"leaves": leaves, "defs": defs, "deltas": [[1, 0], [0, 1], [0, 0]]}
         t2 = t
         if how == "swap" and leaves:
             i = rng.randrange(len(leaves))
@@ -1078,7 +1117,7 @@ class C02(core.Check):
     def cases(self, rng, tier):
         for c in self.systematic():
             yield c
-        n = 2600 if tier == "quick" else 30000
+        n = 6000 if tier == "quick" else 60000
         for i in range(n):
             yield self.random_case(rng, rng.choice([1, 2, 3, 4, 5, 6]))
         for i in range(n // 4):
@@ -1160,7 +1199,25 @@ class C02(core.Check):
 
 
 C02.level_text = (
-    "see harness/props/c02.py LEVEL_TEXT"
+    "Proved in Coq, for EVERY program of canvas operations of any length and nesting depth with shared operands "
+    "(canvas_composition_is_grid): wherever the plain-grid semantics (Model/CanvasGrid.v) defines the operations, the "
+    "shard model of canvas.py raises nothing and every resulting canvas has cell-for-cell the content (text, attribute, "
+    "charset), the cols()/rows() and the cursor / pop-up coordinates of the grid value, and satisfies the well-formedness "
+    "invariant WF.  This covers CanvasCombine, CanvasJoin with padding, CanvasOverlay at any offset inside the bottom canvas, "
+    "CompositeCanvas(c), pad_trim_left_right / pad_trim_top_bottom with any mix of padding and trimming, trim, trim_end, "
+    "fill_attr_apply (and composition of attribute maps), cursor, pop-up and finalize.  Per-operation theorems on shard "
+    "lists (append = stacking, shards_trim_rows = take, shards_trim_top = drop, shards_trim_sides = window of every row, "
+    "shards_join = row-wise concatenation, attribute map = cell map) each with WF preservation and size; a double-width "
+    "character cut by a window becomes a space and a window of a window is the window; content() of a WF canvas has "
+    "rows() rows of cols() cells and no half character at a row edge.  The key lemma content_correct ties the Python "
+    "shard_body/shard_body_row/shard_body_tail iterator algorithm to a 'remaining rows' machine.  NOT PROVED (stated as "
+    "delta_apply_full): the content_delta clause; it is decided by the exact model-vs-implementation correspondence on "
+    "content_delta items and by the oracle (delta applied to the old rows must give the new rows) only.  'Operands are left "
+    "unchanged' is a theorem about the pure model only in the sense that bound canvases stay related to the same grid value; "
+    "against Python object aliasing it is checked by the oracle (every bound canvas and leaf re-read at the end of each case).  "
+    "The model is hand-written (no translated code): its agreement with canvas.py is re-established on every run by the exact "
+    "correspondence on content, sizes, coords, raised error kinds AND the internal shards tuples; WF is evaluated by the "
+    "extracted model on every canvas of every defined case."
 )
 
 CHECK = C02
